@@ -1606,7 +1606,8 @@ fn sink_cases(ctx: &mut Ctx, a: &Val, all: bool) {
         }
         let e = ctx.rng.below(2) as u128;
         let chunk = ctx.rng.pick(&[1u128, 2, 3, 7, 8, 9, 64, 4096, 1 << 40]);
-        ctx.emit(Case::new(38).arg(e).arg(*cap).arg(chunk).val(a.clone()));
+        let f0 = if ctx.rng.chance(1, 3) { 3 } else { 0 };
+        ctx.emit(Case::new(38).form(f0).arg(e).arg(*cap).arg(chunk).val(a.clone()));
         let f = 1 + ctx.rng.below(2) as u32;
         ctx.emit(Case::new(38).form(f).arg(e).arg(*cap).arg(1 << 40).val(a.clone()));
     }
